@@ -164,10 +164,17 @@ def apply_op(w, S_, E, op, tag):
     elif op == 'extend':
         Z = S_[0:T]
         w.settle(S_, E, f'{tag} source after [0:T]')
+        d0 = Z.distances_from_base_position()   # a read-only query on the object that is extended next
+        prove(f'{tag} extend: distances before extending cover the frames held', tuple(d0.shape) == (E.shape[1], T))
+        w.settle(Z, E, f'{tag} copy after distances')
         Z.extend(S_)
         w.settle(S_, E, f'{tag} source after being appended')
         w.check_meta(Z, SPECIES, f'{tag} extend')
         w.roundtrip(Z, np.concatenate([E, E], axis=0).view(type(E)), f'{tag} extend result')
+        d1 = Z.distances_from_base_position()
+        prove(f'{tag} extend: a distance query after extending covers all frames (no stale result of the earlier query)',
+              tuple(d1.shape) == (E.shape[1], 2 * T))
+        w.settle(Z, np.concatenate([E, E], axis=0).view(type(E)), f'{tag} extend result after distances')
     else:
         raise ValueError(op)
     w.settle(S_, E, f'{tag} source after {op}')
@@ -304,8 +311,11 @@ def seq_job_replay(params, inputs):
                         msg = msg or derived_ok(Z, E[bnd[i]:bnd[i + 1]], f'split part {i}')
                 elif op == 'extend':
                     Z = src[0:T]
+                    Z.distances_from_base_position()
                     Z.extend(src)
                     msg = derived_ok(Z, np.concatenate([E, E]), 'extend')
+                    if msg is None and Z.distances_from_base_position().shape != (A, 2 * T):
+                        msg = f'extend: distances after extending have shape {Z.distances_from_base_position().shape}, expected {(A, 2 * T)} (stale query result)'
             except Exception as e:
                 msg = f'{op} raised {type(e).__name__}: {e}'
             if msg:
